@@ -193,6 +193,9 @@ func main() {
 
 // C19 runs the matcher check.
 func C19(c *core.Ctx) {
+	if c.Replay != "" {
+		replayUnsupported(c)
+	}
 	c.Ev.Level = "model_checking"
 	table, err := chartab.Table()
 	if err != nil {
